@@ -666,6 +666,21 @@ class GroupBy:
 
         return value_names, value_list, type_list, common_index
 
+    def _check_aligned_with_keys(self, arr, name: str):
+        """
+        Raise if a row-aligned auxiliary input (timestamps etc.) does not have the length of
+        the group keys or is a pandas object with a different index.
+        """
+        if len(arr) != len(self):
+            raise ValueError(
+                f"Length of {name} ({len(arr)}) does not match length of group keys ({len(self)})"
+            )
+        if isinstance(arr, pd.Series) and self._key_index is not None:
+            if not self._key_index.equals(arr.index):
+                raise ValueError(
+                    f"Pandas index of {name} does not match that of the group keys"
+                )
+
     def _convert_arr_to_pandas_series(
         self, arr: np.ndarray, orig_type, index: pd.Index
     ) -> pd.Series:
@@ -1720,6 +1735,11 @@ class GroupBy:
         )
 
         return_polars = self._values_is_polars(type_list)
+        if isinstance(times, pd.Series) and len(times) == len(self):
+            # (a length mismatch is reported by ema_grouped)
+            self._check_aligned_with_keys(times, "times")
+            if common_index is not None and not common_index.equals(times.index):
+                raise ValueError("Pandas index of times does not match that of the values")
 
         if self.key_is_chunked:
             # the codes of a chunked group key are local to each chunk
@@ -1925,6 +1945,15 @@ class GroupBy:
     ):
         value_list, value_names = convert_data_to_arr_list_and_keys(values)
         common_index = _validate_input_lengths_and_indexes(value_list)
+        if len(value_list[0]) != len(self):
+            raise ValueError(
+                f"Length of the input values ({len(value_list[0])}) does not match length of group keys ({len(self)})"
+            )
+        if self._key_index is not None and common_index is not None:
+            if not self._key_index.equals(common_index):
+                raise ValueError(
+                    "Pandas index of inputs does not match that of the group keys"
+                )
         keep = ilocs > -1
         ilocs = ilocs[keep]
         if keep_input_index and self._sort:
@@ -2404,6 +2433,7 @@ class GroupBy:
         max_diff: float | int
             The threshold distance for forming a new sub-group
         """
+        self._check_aligned_with_keys(values, "values")
         if self.key_is_chunked:
             # the codes of a chunked group key are local to each chunk
             self._unify_group_key_chunks()
